@@ -139,8 +139,8 @@ func dumpFunc(c *Ctx, spec string) {
 					fmt.Printf("    %s: store %s <- %s\n", c.pos(in.Pos()), c.E(in.Addr), c.E(in.Val))
 				case *ssa.Return:
 					var rs []string
-					for _, r := range in.Results {
-						rs = append(rs, c.E(r).String())
+					for i := range in.Results {
+						rs = append(rs, c.RetX(in, i).String())
 					}
 					fmt.Printf("    %s: return %s\n", c.pos(in.Pos()), strings.Join(rs, " ; "))
 				case *ssa.If:
